@@ -24,6 +24,8 @@ Conventions
   `St.names` is the registry `Framer.Names` (name ↦ object).  Frames live inside their framer and are named.
 * Script items keep their position (`Frame.items`); the act lists of a frame are the filtered items in order.
   Resolving an act rewrites its reference from the relative path to the resolved share path.
+* Every house has its own store and its own name registry.  A share is keyed `<house>/<path>`.  `St.names` is the
+  registry the class attribute `Framer.Names` points at (`House.assignRegistries` switches it: `assignRegistries`).
 * The store holds the `value` field of the shares touched (`put`, `inc`, needs, the framer clocks): an entry with
   `none` is a `value` field that holds None; time is an `Int` (period 1).
 * Calls from a frame into its auxiliary framers go through `Ops` (as in Model/Flo.lean); `opsAt 0` fails with
@@ -86,6 +88,7 @@ structure FrameSrc where
   deriving Repr
 
 structure FramerSrc where
+  house : String
   name : String
   sched : Sched
   first : Option String
@@ -127,6 +130,7 @@ structure Ctl where
 
 structure Fr where
   uid : Nat
+  house : String                           -- `.store.house`
   name : String
   tag : String
   sched : Sched
@@ -153,7 +157,10 @@ inductive Err
 
 structure St where
   objs : List Fr := []
-  names : List (String × Nat) := []
+  names : List (String × Nat) := []     -- `Framer.Names`: the registry the class attribute points at (house `cur`)
+  cur : String := ""                    -- the house whose registries the class attributes point at
+  regs : List (String × List (String × Nat)) := []   -- the tasker registries of the other houses
+  houses : List String := []            -- the houses of the skedder in creation order
   nextUid : Nat := 0
   presolvables : List Nat := []
   resolvables : List Nat := []
@@ -231,14 +238,23 @@ def allC {α : Type} (p : α → List Nat → Except Err (Bool × List Nat)) : L
 
 /-! ## Framer.__init__, Framer.clone, naming -/
 
-def statePath (name what : String) : String := "framer." ++ name ++ ".state." ++ what
+def statePath (house name what : String) : String := house ++ "/framer." ++ name ++ ".state." ++ what
 
-/-- `Framer(name=…, tag=…)`: registers the name, creates the state shares -/
-def newFramer (s : St) (name tag : String) (sched : Sched) : St × Fr :=
-  let o : Fr := { uid := s.nextUid, name := name, tag := if tag = "" then name else tag, sched := sched,
+/-- `House.assignRegistries()`: point the class registries at house `h` -/
+def assignRegistries (h : String) (s : St) : St :=
+  if s.cur = h then s
+  else { s with regs := assign s.regs s.cur s.names, names := (lookup s.regs h).getD [], cur := h }
+
+/-- the tasker registry of house `h` -/
+def St.regOf (s : St) (h : String) : List (String × Nat) :=
+  if s.cur = h then s.names else (lookup s.regs h).getD []
+
+/-- `Framer(name=…, tag=…, store=…)` in house `house`: registers the name in `Framer.Names`, creates the state shares -/
+def newFramer (s : St) (house name tag : String) (sched : Sched) : St × Fr :=
+  let o : Fr := { uid := s.nextUid, house := house, name := name, tag := if tag = "" then name else tag, sched := sched,
                   inode := "", first := "" }
   let s := { s with nextUid := s.nextUid + 1, names := assign s.names name o.uid, objs := s.objs ++ [o] }
-  ((s.write (statePath name "elapsed") 0).write (statePath name "recurred") 0, o)
+  ((s.write (statePath house name "elapsed") 0).write (statePath house name "recurred") 0, o)
 
 /-- `Frame.clone(framer)`: same name, inode, aux links, over / next / under names; every act deep copied.
 (Links already resolved to objects raise CloneError: see `cloneFramer`.) -/
@@ -246,14 +262,15 @@ def Frame.clone (f : Frame) : Frame :=
   { name := f.name, inode := f.inode, over := f.over, next := f.next, unders := f.unders, links := f.links,
     items := f.items }
 
-/-- `Framer.clone(name, tag, schedule=AUX)` -/
+/-- `Framer.clone(name, tag, schedule=AUX)`.  Its first statement `self.store.house.assignRegistries()` is made by the
+callers (`rear`; `resolveHouse` for the clones of `resolveMoots`), where it is not already in force. -/
 def cloneFramer (s : St) (orig : Fr) (name tag : String) : Except Err (St × Fr) :=
   if name ≠ "" ∧ ¬ isIdentPub name then .error .clone
   else if (lookup s.names name).isSome then .error .clone
   -- Frame.clone / Act.clone raise CloneError on links that are objects: every link of a resolved framer is
   else if orig.resolved ∨ orig.presolved then .error .clone
   else
-    let (s, c) := newFramer s name tag .aux
+    let (s, c) := newFramer s orig.house name tag .aux
     let c := { c with first := orig.first, moots := orig.moots, inode := orig.inode,
                       frames := orig.frames.map Frame.clone }
     .ok (s.mod c.uid (fun _ => c), c)
@@ -349,9 +366,13 @@ def buildFramers : List FramerSrc → St → Except Err St
   | [], s => .ok s
   | src :: rest, s =>
     if !validName src.name || !((src.first.map validName).getD true) then .error .parse
-    else if (lookup s.names src.name).isSome then .error .parse
+    else if s.cur ≠ src.house ∧ s.houses.contains src.house then .error .parse   -- `house` verb: the name is taken
     else
-      let (s, o) := newFramer s src.name "" src.sched
+    -- the `house` verb: a new house, its registries assigned
+    let s := if s.cur = src.house then s else { (assignRegistries src.house s) with houses := s.houses ++ [src.house] }
+    if (lookup s.names src.name).isSome then .error .parse
+    else
+      let (s, o) := newFramer s src.house src.name "" src.sched
       let o := { o with first := src.first.getD "", inode := src.via }
       match buildFrames src.frames o with
       | .error e => .error e
@@ -565,7 +586,7 @@ def resolveRef (s : St) (o : Fr) (fn : String) (actor : Option String) (ref : St
   | .ok c =>
     match Ioflo.ResolvePath.resolvePath c none ref with
     | .error _ => .error .resolve                    -- incomplete path, missing main, unresolved actor: ResolveError
-    | .ok (p, _) => .ok (Ioflo.ResolvePath.lstripDots p)
+    | .ok (p, _) => .ok (o.house ++ "/" ++ Ioflo.ResolvePath.lstripDots p)
 
 def mapM' {α β : Type} (f : α → Except Err β) : List α → Except Err (List β)
   | [] => .ok []
@@ -718,15 +739,19 @@ def resolveAll : Nat → St → Except Err St
 
 def worklistFuel : Nat := 200
 
-/-- `Builder.build`: the verbs, then `House.resolve` -/
+/-- `House.resolve` -/
+def resolveHouse (s : St) (h : String) : Except Err St :=
+  let s := assignRegistries h s
+  let todo := (s.objs.filter (fun o => o.house == h && o.sched != .moot)).map (·.uid)
+  match presolveAll worklistFuel { s with presolvables := todo } with
+  | .error e => .error e
+  | .ok s => resolveAll worklistFuel s
+
+/-- `Builder.build`: the verbs, then `House.resolve` for every house in order -/
 def build (src : List FramerSrc) : Except Err St :=
   match buildFramers src {} with
   | .error e => .error e
-  | .ok s =>
-    let todo := (s.objs.filter (fun o => o.sched != .moot)).map (·.uid)
-    match presolveAll worklistFuel { s with presolvables := todo } with
-    | .error e => .error e
-    | .ok s => resolveAll worklistFuel s
+  | .ok s => forEach (fun h s => resolveHouse s h) s.houses s
 
 /-! ## run time -/
 
@@ -817,7 +842,8 @@ def rear (u : Nat) (fn : String) (moot frame : String) (s : St) : Except Err St 
     | some af =>
       if af.outline.contains frame then .ok s            -- "Cannot rear clone in own outline": logs and returns
       else
-        match rearCreate u moot frame s with
+        -- `original.clone(…)` starts with `self.store.house.assignRegistries()` (the original lives in this house)
+        match rearCreate u moot frame (assignRegistries me.house s) with
         | .error e => .error e
         | .ok (s, _) =>
           match presolveAll worklistFuel s with
@@ -954,7 +980,7 @@ def restartClocks (u : Nat) (s : St) : Except Err St :=
   | .error e => .error e
   | .ok me =>
     let s := s.modCtl u (fun x => { x with stamp := s.now, elapsed := 0, recurred := 0 })
-    .ok ((s.write (statePath me.name "elapsed") 0).write (statePath me.name "recurred") 0)
+    .ok ((s.write (statePath me.house me.name "elapsed") 0).write (statePath me.house me.name "recurred") 0)
 
 /-- `updateTimer(); updateCounter()` -/
 def updateClocks (u : Nat) (s : St) : Except Err St :=
@@ -964,7 +990,7 @@ def updateClocks (u : Nat) (s : St) : Except Err St :=
     let el := s.now - me.ctl.stamp
     let rc := me.ctl.recurred + 1
     let s := s.modCtl u (fun x => { x with elapsed := el, recurred := rc })
-    .ok ((s.write (statePath me.name "elapsed") el).write (statePath me.name "recurred") rc)
+    .ok ((s.write (statePath me.house me.name "elapsed") el).write (statePath me.house me.name "recurred") rc)
 
 /-- `Framer.enter(enters)` -/
 def enter (u : Nat) (enters : List String) (s : St) : Except Err St :=
@@ -1144,7 +1170,7 @@ def prune (u : Nat) (s : St) : Except Err St :=
     | .ok s =>
       match forEach (pruneFrame lo u) (me.frames.map (·.name)) s with
       | .error e => .error e
-      | .ok s => .ok (unregister s me)
+      | .ok s => .ok (unregister (assignRegistries me.house s) me)   -- fix D47a: the framer's own house
 
 def nextOps : Ops :=
   { enterAll := enterAll lo, exitAll := exitAll lo false, recur := recur lo, segue := segue lo,
